@@ -100,6 +100,8 @@ struct Node {
     router: Option<GossipRouter>,
     pending: Vec<usize>,
     removed_once: BTreeSet<u64>,
+    /// peers whose address this node's stand-alone router has lost (connection down) while they stay on the ring
+    addr_dropped: BTreeSet<u64>,
 }
 
 struct Flight { from: u64, to: u64, bytes: Vec<u8>, converged: bool }
@@ -255,6 +257,7 @@ impl World {
                 let skip = e.id == id && !self.self_in_peers;
                 let r = self.nodes[n].router.as_mut().expect("standalone router");
                 if e.add { if !skip { r.update_peer(x, addr(e.id)); } } else { r.remove_peer(x); }
+                self.nodes[n].addr_dropped.remove(&e.id);
             }
             Mode::StateNew | Mode::FromConfig => {
                 let peers = self.peers_map(n);
@@ -306,7 +309,8 @@ impl World {
             let ring = self.nodes[n].ring.read().expect("ring lock");
             for (d, uid) in deltas.iter().zip(&uids) {
                 let owners = ids(&ring.get_replicas(&d.key));
-                let expect: BTreeSet<u64> = owners.iter().copied().filter(|x| *x != me).collect();
+                // an owner the sender has lost its connection to cannot be handed anything until it is back
+                let expect: BTreeSet<u64> = owners.iter().copied().filter(|x| *x != me && !self.nodes[n].addr_dropped.contains(x)).collect();
                 if owners.contains(&me) { rep.probe("sender_is_owner"); } else if !owners.is_empty() { rep.probe("sender_is_not_owner"); }
                 total_expected += expect.len();
                 self.upds.insert(*uid, Upd { key: d.key.clone(), sender: me, expect, owners, sender_view: sender_view.clone() });
@@ -525,7 +529,7 @@ impl Property for C19 {
             for i in (1..order.len()).rev() { let j = i - src.idx(i + 1); order.swap(i, j); }
             src.end();
             let ring = Arc::new(RwLock::new(HashRing::new(order.iter().map(|x| ReplicaId::new(*x)).collect(), vnodes, rf)));
-            w.nodes.push(Node { id: *id, ring, view: m0.iter().copied().collect(), init_order: order, hist: Vec::new(), mode, fc_active: mode == Mode::FromConfig, gs: None, router: None, pending: Vec::new(), removed_once: BTreeSet::new() });
+            w.nodes.push(Node { id: *id, ring, view: m0.iter().copied().collect(), init_order: order, hist: Vec::new(), mode, fc_active: mode == Mode::FromConfig, gs: None, router: None, pending: Vec::new(), removed_once: BTreeSet::new(), addr_dropped: BTreeSet::new() });
             let cfg = w.config_for(n);
             let peers = w.peers_map(n);
             let ring = w.nodes[n].ring.clone();
@@ -551,7 +555,22 @@ impl Property for C19 {
             if !src.more(15, 16) { src.end(); break; }
             n_events += 1;
             steps += 1;
-            match src.weighted(&[4, 4, 3, 3]) {
+            match src.weighted(&[4, 4, 3, 3, 2]) {
+                4 => {
+                    // a stand-alone router loses the connection to a peer that stays a member, or gets it back
+                    let n = src.idx(np);
+                    let peers: Vec<u64> = w.nodes[n].view.iter().copied().filter(|p| *p != w.nodes[n].id).collect();
+                    let c = src.idx(peers.len().max(1));
+                    if w.nodes[n].mode == Mode::Standalone && !peers.is_empty() {
+                        let pid = peers[c];
+                        let back = w.nodes[n].addr_dropped.contains(&pid);
+                        let r = w.nodes[n].router.as_mut().expect("standalone router");
+                        if back { r.update_peer(ReplicaId::new(pid), addr(pid)); w.nodes[n].addr_dropped.remove(&pid); rep.probe("peer_address_relearned"); }
+                        else { r.remove_peer(ReplicaId::new(pid)); w.nodes[n].addr_dropped.insert(pid); rep.fault("peer_connection_lost"); }
+                        w.fp = fnv(w.fp, format!("a{}:{}{}", w.nodes[n].id, if back { '+' } else { '-' }, pid).as_bytes());
+                        rep.log(ctx.trace, || format!("node {} {} peer {}", w.nodes[n].id, if back { "reconnects to" } else { "loses its connection to" }, pid));
+                    }
+                }
                 0 => {
                     // route a batch
                     let n = src.idx(np);
@@ -603,6 +622,15 @@ impl Property for C19 {
                     let e = mevs[w.nodes[n].pending.remove(0)];
                     steps += 1;
                     w.apply_member(n, e, &mut rep, ctx);
+                }
+            }
+        }
+        if !w.stop {
+            for n in 0..np {
+                let lost: Vec<u64> = w.nodes[n].addr_dropped.iter().copied().collect();
+                for pid in lost {
+                    if w.nodes[n].view.contains(&pid) { if let Some(r) = w.nodes[n].router.as_mut() { r.update_peer(ReplicaId::new(pid), addr(pid)); } }
+                    w.nodes[n].addr_dropped.remove(&pid);
                 }
             }
         }
